@@ -5,18 +5,25 @@ package c02
 
 import (
 	"context"
+	"crypto/sha256"
 	"crypto/x509"
+	"encoding/json"
 	"errors"
 	"fmt"
+	"os"
+	"path/filepath"
 	"sort"
+	"sync"
 	"time"
 
 	revresult "github.com/notaryproject/notation-core-go/revocation/result"
 	"github.com/notaryproject/notation-core-go/signature"
 	"github.com/notaryproject/notation-go"
+	"github.com/notaryproject/notation-go/dir"
 	"github.com/notaryproject/notation-go/plugin"
 	"github.com/notaryproject/notation-go/verifier"
 	"github.com/notaryproject/notation-go/verifier/trustpolicy"
+	"github.com/notaryproject/notation-go/verifier/truststore"
 	"github.com/notaryproject/notation-go/xverif/common"
 	pluginfw "github.com/notaryproject/notation-plugin-framework-go/plugin"
 	"github.com/opencontainers/go-digest"
@@ -48,6 +55,11 @@ type Input struct {
 	Processed         []string    `json:"processed"`
 	VerdictIdentity   string      `json:"verdictIdentity"`
 	VerdictRevocation string      `json:"verdictRevocation"`
+	// how the scenario is concretised (the model does not look at these)
+	Stores    []string `json:"stores"`    // the statement's trust store list by kind; [] = one store chosen by Trust
+	StoreImpl string   `json:"storeImpl"` // fake | fs
+	Ctor      string   `json:"ctor"`      // New | NewWithOptions | NewVerifierWithOptions | NewFromConfig | NewOCIVerifierFromConfig
+	RevSupply string   `json:"revSupply"` // validator | client | both | none
 }
 
 type Result struct {
@@ -74,9 +86,169 @@ type world struct {
 	good, expiredLeaf *common.Chain // same subjects; expiredLeaf's leaf certificate is no longer valid
 	unrelated         *common.Chain
 	envCache          map[string][]byte
+	workDir           string
+	fsDone            map[string]bool
 }
 
-func newWorld() *world {
+// countingStore wraps a real trust store and logs the calls.
+type countingStore struct {
+	mu    sync.Mutex
+	inner truststore.X509TrustStore
+	calls []common.StoreCall
+}
+
+func (s *countingStore) GetCertificates(ctx context.Context, t truststore.Type, name string) ([]*x509.Certificate, error) {
+	s.mu.Lock()
+	s.calls = append(s.calls, common.StoreCall{Type: string(t), Name: name})
+	s.mu.Unlock()
+	return s.inner.GetCertificates(ctx, t, name)
+}
+
+// storeEntry is one concrete entry of the statement's trustStores list.
+type storeEntry struct {
+	kind, typ, name string
+	brokenVariant   int
+}
+
+// layout names the concrete stores of the scenario; first = "type:name" of the first entry of the needed type.
+func layout(in Input) (entries []storeEntry, first string) {
+	if len(in.Stores) == 0 {
+		kind := map[string]string{"found": "anchor", "notFound": "other", "emptyStores": "empty", "storeError": "broken"}[in.Trust]
+		return []storeEntry{{kind: kind, typ: "ca", name: "c02"}}, "c02"
+	}
+	for k, kind := range in.Stores {
+		e := storeEntry{kind: kind, typ: "ca", name: fmt.Sprintf("c02-%d-%s", k, kind), brokenVariant: (k + len(in.Stores)) % 3}
+		if kind == "otherType" || kind == "otherTypeBroken" {
+			e.typ = "signingAuthority"
+		}
+		entries = append(entries, e)
+	}
+	for _, e := range entries {
+		if e.typ == "ca" && e.kind != "dup" {
+			first = e.name
+			break
+		}
+	}
+	for k := range entries {
+		if entries[k].kind == "dup" {
+			entries[k].name = first
+		}
+	}
+	return entries, first
+}
+
+// trustOf mirrors Model/C02.lean trustOf.
+func trustOf(kinds []string) string {
+	has := func(k string) bool {
+		for _, x := range kinds {
+			if x == k {
+				return true
+			}
+		}
+		return false
+	}
+	switch {
+	case has("broken"):
+		return "storeError"
+	case has("anchor"):
+		return "found"
+	case has("other"):
+		return "notFound"
+	}
+	return "emptyStores"
+}
+
+// wellFormed mirrors Model/C02.lean concretisationOK (plus: an empty store needs the fake).
+func wellFormed(in Input) error {
+	if len(in.Stores) > 0 {
+		if trustOf(in.Stores) != in.Trust {
+			return fmt.Errorf("stores %v realise %s, not %s", in.Stores, trustOf(in.Stores), in.Trust)
+		}
+		rel := false
+		for _, k := range in.Stores {
+			if k == "anchor" || k == "other" || k == "empty" || k == "broken" {
+				rel = true
+			}
+			if k == "empty" && in.StoreImpl == "fs" {
+				return errors.New("the file-system trust store cannot hold an empty store")
+			}
+		}
+		if !rel {
+			return errors.New("no store of the needed type")
+		}
+	} else if in.StoreImpl == "fs" && in.Trust == "emptyStores" {
+		return errors.New("the file-system trust store cannot hold an empty store")
+	}
+	fromConfig := in.Ctor == "NewFromConfig" || in.Ctor == "NewOCIVerifierFromConfig"
+	if (in.Ctor == "New" || fromConfig) && in.RevSupply != "none" {
+		return errors.New("constructor takes no revocation option")
+	}
+	if in.RevSupply == "none" && in.Revocation != "ok" {
+		return errors.New("the default validator has no objection to the scenario's certificates")
+	}
+	if fromConfig && (in.StoreImpl != "fs" || in.PluginAttr == "named") {
+		return errors.New("from-config constructors use the file-system store and the CLI plugin manager")
+	}
+	return nil
+}
+
+// fsWorld provisions (once per layout) a notation configuration directory with the stores of the layout.
+func (w *world) fsWorld(in Input, chain *common.Chain, entries []storeEntry) string {
+	kinds := []string{}
+	for _, e := range entries {
+		kinds = append(kinds, e.typ+":"+e.name+":"+e.kind)
+	}
+	key := fmt.Sprintf("%x", sha256.Sum256([]byte(fmt.Sprint(kinds, in.TimestampOk))))[:16]
+	base := filepath.Join(w.workDir, "c02fs", key)
+	if w.fsDone[key] {
+		return base
+	}
+	must := func(err error) {
+		if err != nil {
+			panic(fmt.Sprintf("c02: provisioning %s: %v", base, err))
+		}
+	}
+	os.RemoveAll(base)
+	anchor := common.PEM(chain.Root().Cert)
+	other := common.PEM(w.unrelated.Root().Cert)
+	for k, e := range entries {
+		d := filepath.Join(base, dir.X509TrustStoreDir(e.typ, e.name))
+		switch e.kind {
+		case "anchor", "otherType":
+			must(os.MkdirAll(d, 0o755))
+			if k%2 == 1 {
+				must(os.WriteFile(filepath.Join(d, "a-other.crt"), other, 0o644))
+			}
+			must(os.WriteFile(filepath.Join(d, "anchor.crt"), anchor, 0o644))
+		case "other":
+			must(os.MkdirAll(d, 0o755))
+			must(os.WriteFile(filepath.Join(d, "other.pem"), other, 0o644))
+		case "broken":
+			switch e.brokenVariant {
+			case 0: // not provisioned on this machine
+			case 1: // a symbolic link to a perfectly good store
+				tgt := filepath.Join(base, fmt.Sprintf("elsewhere-%d", k))
+				must(os.MkdirAll(tgt, 0o755))
+				must(os.WriteFile(filepath.Join(tgt, "anchor.crt"), anchor, 0o644))
+				must(os.MkdirAll(filepath.Dir(d), 0o755))
+				must(os.Symlink(tgt, d))
+			default: // the anchor and, after it, a file that is no certificate
+				must(os.MkdirAll(d, 0o755))
+				must(os.WriteFile(filepath.Join(d, "anchor.crt"), anchor, 0o644))
+				must(os.WriteFile(filepath.Join(d, "junk.crt"), []byte("not a certificate\n"), 0o644))
+			}
+		case "dup", "otherTypeBroken":
+			// dup: provisioned by its original; otherTypeBroken: not provisioned
+		default:
+			panic("c02: fs store of kind " + e.kind)
+		}
+	}
+	must(os.MkdirAll(base, 0o755))
+	w.fsDone[key] = true
+	return base
+}
+
+func newWorld(workDir string) *world {
 	now := time.Now()
 	nb := now.Add(-48 * time.Hour)
 	leafName := common.Name("c02 leaf")
@@ -85,6 +257,8 @@ func newWorld() *world {
 		expiredLeaf: common.MakeChain(common.ChainOpts{Tag: "c02", LeafSubject: &leafName, RootNB: nb, LeafNB: nb, LeafNA: now.Add(-30 * time.Minute)}),
 		unrelated:   common.MakeChain(common.ChainOpts{Tag: "c02 unrelated", RootNB: nb, LeafNB: nb}),
 		envCache:    map[string][]byte{},
+		fsDone:      map[string]bool{},
+		workDir:     workDir,
 	}
 }
 
@@ -147,16 +321,43 @@ func runCase(w *world, in Input, format string) Obs {
 	env := w.envelope(in, format)
 	chain := w.chain(in)
 
+	if err := wellFormed(in); err != nil {
+		panic(fmt.Sprintf("c02: generator emitted an ill-formed concretisation: %v (%+v)", err, in))
+	}
+	entries, first := layout(in)
+	fromConfig := in.Ctor == "NewFromConfig" || in.Ctor == "NewOCIVerifierFromConfig"
 	store := common.NewMemStore()
-	switch in.Trust {
-	case "found":
-		store.Certs["ca:c02"] = []*x509.Certificate{chain.Root().Cert}
-	case "notFound":
-		store.Certs["ca:c02"] = []*x509.Certificate{w.unrelated.Root().Cert}
-	case "emptyStores":
-		store.Empty["ca:c02"] = true
-	case "storeError":
-		store.Errs["ca:c02"] = errors.New("cannot load store")
+	var counting *countingStore
+	var x509Store truststore.X509TrustStore = store
+	fsBase := ""
+	if in.StoreImpl == "fs" {
+		fsBase = w.fsWorld(in, chain, entries)
+		counting = &countingStore{inner: truststore.NewX509TrustStore(dir.NewSysFS(fsBase))}
+		x509Store = counting
+	} else {
+		for k, e := range entries {
+			key := e.typ + ":" + e.name
+			switch e.kind {
+			case "anchor", "otherType":
+				if k%2 == 1 {
+					store.Certs[key] = []*x509.Certificate{w.unrelated.Root().Cert, chain.Root().Cert}
+				} else {
+					store.Certs[key] = []*x509.Certificate{chain.Root().Cert}
+				}
+			case "other":
+				store.Certs[key] = []*x509.Certificate{w.unrelated.Root().Cert}
+			case "empty":
+				store.Empty[key] = true
+			case "broken":
+				if e.brokenVariant == 0 || len(in.Stores) == 0 {
+					store.Errs[key] = errors.New("cannot load store")
+				} // else: not provisioned, the fake answers with a TrustStoreError
+			}
+		}
+	}
+	trustStores := []string{}
+	for _, e := range entries {
+		trustStores = append(trustStores, e.typ+":"+e.name)
 	}
 	rev := &common.ScriptedRevocation{}
 	switch in.Revocation {
@@ -189,7 +390,7 @@ func runCase(w *world, in Input, format string) Obs {
 		Name:                  "c02",
 		RegistryScopes:        []string{"*"},
 		SignatureVerification: trustpolicy.SignatureVerification{VerificationLevel: in.Level, Override: ov},
-		TrustStores:           []string{"ca:c02"},
+		TrustStores:           trustStores,
 		TrustedIdentities:     []string{identity},
 	}}}
 	sp := &common.ScriptedPlugin{}
@@ -244,26 +445,85 @@ func runCase(w *world, in Input, format string) Obs {
 	bdoc := &trustpolicy.BlobDocument{Version: "1.0", TrustPolicies: []trustpolicy.BlobTrustPolicy{{
 		Name:                  "c02",
 		SignatureVerification: trustpolicy.SignatureVerification{VerificationLevel: blobLevel},
-		TrustStores:           []string{"ca:c02"},
+		TrustStores:           trustStores,
 		TrustedIdentities:     []string{"*"},
 	}}}
-	opts := verifier.VerifierOptions{OCITrustPolicy: doc, BlobTrustPolicy: bdoc, RevocationCodeSigningValidator: rev}
-	if in.PluginState != "managerNil" {
-		opts.PluginManager = mgr
+	// the contradicting script: what a checker that must NOT be consulted would say
+	contra := &common.ScriptedRevocation{Results: common.UniformResults(revresult.ResultOK)}
+	if in.Revocation == "ok" {
+		contra.Results = common.VectorResults([]revresult.Result{revresult.ResultRevoked, revresult.ResultOK})
 	}
-	v, err := verifier.NewVerifierWithOptions(store, opts)
+	opts := verifier.VerifierOptions{BlobTrustPolicy: bdoc}
+	switch in.RevSupply {
+	case "", "validator":
+		opts.RevocationCodeSigningValidator = rev
+	case "client":
+		opts.RevocationClient = rev.ClientView()
+	case "both":
+		opts.RevocationCodeSigningValidator = rev
+		opts.RevocationClient = contra.ClientView()
+	case "none":
+	default:
+		panic("c02: revSupply " + in.RevSupply)
+	}
+	var pm plugin.Manager
+	if in.PluginState != "managerNil" {
+		pm = mgr
+	}
+	var v notation.Verifier
+	var err error
+	switch in.Ctor {
+	case "", "NewVerifierWithOptions":
+		opts.OCITrustPolicy, opts.PluginManager = doc, pm
+		v, err = verifier.NewVerifierWithOptions(x509Store, opts)
+	case "NewWithOptions":
+		v, err = verifier.NewWithOptions(doc, x509Store, pm, opts)
+	case "New":
+		v, err = verifier.New(doc, x509Store, pm)
+	case "NewFromConfig", "NewOCIVerifierFromConfig":
+		// the library reads the statement and the stores from its configuration directory
+		os.Remove(filepath.Join(fsBase, dir.PathOCITrustPolicy))
+		os.Remove(filepath.Join(fsBase, dir.PathTrustPolicy))
+		pj, jerr := json.Marshal(doc)
+		if jerr != nil {
+			panic(jerr)
+		}
+		file := dir.PathOCITrustPolicy
+		if in.Ctor == "NewFromConfig" {
+			file = dir.PathTrustPolicy // the older name, found by fallback
+		}
+		if werr := os.WriteFile(filepath.Join(fsBase, file), pj, 0o600); werr != nil {
+			panic(werr)
+		}
+		oldCfg, oldLibexec := dir.UserConfigDir, dir.UserLibexecDir
+		dir.UserConfigDir, dir.UserLibexecDir = fsBase, filepath.Join(fsBase, "libexec")
+		if in.Ctor == "NewFromConfig" {
+			v, err = verifier.NewFromConfig()
+		} else {
+			v, err = verifier.NewOCIVerifierFromConfig()
+		}
+		dir.UserConfigDir, dir.UserLibexecDir = oldCfg, oldLibexec
+		counting = nil // the library's own store object: calls cannot be counted
+	default:
+		panic("c02: ctor " + in.Ctor)
+	}
 	if err != nil {
-		panic(fmt.Sprintf("c02: NewVerifierWithOptions: %v (level %s override %v)", err, in.Level, in.Override))
+		panic(fmt.Sprintf("c02: %s: %v (level %s override %v)", in.Ctor, err, in.Level, in.Override))
 	}
 	vopts := notation.VerifierVerifyOptions{ArtifactReference: "reg.example/c02@" + target.Digest.String(), SignatureMediaType: format}
 	if in.PluginCallError || len(in.Override)%2 == 1 {
 		// history on one verifier: first a blob verification under the same-named blob statement
 		// (its result is irrelevant), then the verification under test
-		v.VerifyBlob(context.Background(), func(a digest.Algorithm) (ocispec.Descriptor, error) {
-			return ocispec.Descriptor{Digest: a.FromString("c02 blob"), Size: 8}, nil
-		}, env, notation.BlobVerifierVerifyOptions{SignatureMediaType: format, TrustPolicyName: "c02"})
+		if bv, ok := v.(notation.BlobVerifier); ok {
+			bv.VerifyBlob(context.Background(), func(a digest.Algorithm) (ocispec.Descriptor, error) {
+				return ocispec.Descriptor{Digest: a.FromString("c02 blob"), Size: 8}, nil
+			}, env, notation.BlobVerifierVerifyOptions{SignatureMediaType: format, TrustPolicyName: "c02"})
+		}
 		store.Reset()
-		rev.Calls, mgr.Gets, sp.VerifyRequests, sp.MetadataCalls = nil, nil, nil, 0
+		if counting != nil {
+			counting.calls = nil
+		}
+		rev.Calls, contra.Calls, mgr.Gets, sp.VerifyRequests, sp.MetadataCalls = nil, nil, nil, nil, 0
 	}
 	outcome, verr := v.Verify(context.Background(), target, env, vopts)
 	o := Obs{Accepted: verr == nil, Results: []Result{}}
@@ -278,12 +538,45 @@ func runCase(w *world, in Input, format string) Obs {
 			o.Results = append(o.Results, Result{string(r.Type), string(r.Action), r.Error != nil})
 		}
 	}
-	for _, c := range store.Calls {
-		if c.Type == "ca" || c.Type == "signingAuthority" {
+	hasResult := func(t trustpolicy.ValidationType) int {
+		n := 0
+		if outcome != nil {
+			for _, r := range outcome.VerificationResults {
+				if r.Type == t {
+					n++
+				}
+			}
+		}
+		return n
+	}
+	// one load of the statement's stores = one call for the first listed store of the needed type
+	// (whatever stands behind it); a call for a store of another signing type is one too many
+	calls := store.Calls
+	if counting != nil {
+		calls = counting.calls
+	}
+	for _, c := range calls {
+		if (c.Type == "ca" && c.Name == first) || c.Type == "signingAuthority" {
 			o.StoreLoads++
 		}
 	}
-	o.ValidatorCalls = len(rev.Calls)
+	if fromConfig {
+		o.StoreLoads = hasResult(trustpolicy.TypeAuthenticity) // not countable: as many loads as authenticity results
+	}
+	// native revocation checks: whichever checker was consulted (the one that must not be included)
+	o.ValidatorCalls = len(rev.Calls) + len(contra.Calls)
+	if in.RevSupply == "none" {
+		// the default validator cannot be instrumented: a native check leaves a revocation result
+		// that no plugin was asked for
+		o.ValidatorCalls = hasResult(trustpolicy.TypeRevocation)
+		if len(sp.VerifyRequests) > 0 {
+			for _, c := range sp.VerifyRequests[0].TrustPolicy.SignatureVerification {
+				if string(c) == string(pluginfw.CapabilityRevocationCheckVerifier) {
+					o.ValidatorCalls = 0
+				}
+			}
+		}
+	}
 	o.ManagerGets = len(mgr.Gets)
 	if len(sp.VerifyRequests) > 0 {
 		req := sp.VerifyRequests[0]
@@ -396,7 +689,98 @@ func genInput(c *common.Ctx) Input {
 	}
 	in.VerdictIdentity = pick(c, []string{"success", "success", "success", "failure", "missing"})
 	in.VerdictRevocation = pick(c, []string{"success", "success", "success", "failure", "missing"})
+	concretise(c, &in)
 	return in
+}
+
+// concretise chooses HOW the scenario is realised: constructor, revocation supply, trust store
+// implementation and the statement's trust store list (adjusting the scenario where a choice cannot realise it).
+func concretise(c *common.Ctx, in *Input) {
+	switch r := c.Rand.Float64(); {
+	case r < 0.50:
+		in.Ctor = "NewVerifierWithOptions"
+	case r < 0.74:
+		in.Ctor = "NewWithOptions"
+	case r < 0.86:
+		in.Ctor = "New"
+	case r < 0.93:
+		in.Ctor = "NewFromConfig"
+	default:
+		in.Ctor = "NewOCIVerifierFromConfig"
+	}
+	fromConfig := in.Ctor == "NewFromConfig" || in.Ctor == "NewOCIVerifierFromConfig"
+	if in.Ctor == "New" || fromConfig {
+		in.RevSupply = "none"
+	} else {
+		in.RevSupply = pick(c, []string{"validator", "validator", "client", "client", "both", "both", "none"})
+	}
+	if in.RevSupply == "none" {
+		in.Revocation = "ok"
+	}
+	in.StoreImpl = "fake"
+	if fromConfig || chance(c, 0.25) {
+		in.StoreImpl = "fs"
+	}
+	if fromConfig && in.PluginAttr == "named" {
+		in.PluginAttr = "absent"
+	}
+	fs := in.StoreImpl == "fs"
+	if fs && in.Trust == "emptyStores" {
+		in.Trust = pick(c, []string{"notFound", "storeError"})
+	}
+	if chance(c, 0.25) {
+		in.Stores = []string{} // the single store
+		return
+	}
+	fill := map[string][]string{
+		"found":       {"anchor", "other", "other", "empty"},
+		"notFound":    {"other", "other", "empty"},
+		"emptyStores": {"empty"},
+		"storeError":  {"anchor", "anchor", "other", "empty", "broken"},
+	}[in.Trust]
+	must := map[string]string{"found": "anchor", "notFound": "other", "emptyStores": "empty", "storeError": "broken"}[in.Trust]
+	stores := []string{must}
+	for n := c.Rand.Intn(4); n > 0; n-- {
+		k := pick(c, fill)
+		if k == "empty" && fs {
+			k = "other"
+			if in.Trust == "emptyStores" {
+				continue
+			}
+		}
+		stores = append(stores, k)
+	}
+	for _, extra := range []string{"otherType", "otherTypeBroken", "dup"} {
+		if chance(c, 0.2) {
+			stores = append(stores, extra)
+		}
+	}
+	c.Rand.Shuffle(len(stores), func(a, b int) { stores[a], stores[b] = stores[b], stores[a] })
+	in.Stores = stores
+}
+
+// where the first unloadable store stands among the stores of the needed type
+func brokenPosition(stores []string) string {
+	rel := []string{}
+	for _, k := range stores {
+		if k == "anchor" || k == "other" || k == "empty" || k == "broken" {
+			rel = append(rel, k)
+		}
+	}
+	for k, x := range rel {
+		if x == "broken" {
+			switch {
+			case len(rel) == 1:
+				return "alone"
+			case k == 0:
+				return "before"
+			case k == len(rel)-1:
+				return "after"
+			}
+			return "between"
+		}
+	}
+	return "none"
 }
 
 // corpus: witnesses of earlier findings, always run first
@@ -413,12 +797,52 @@ func corpus() []Input {
 	// the same with the plugin owning identity: executed, attribute unprocessed
 	c := b
 	c.CapIdentity = true
-	return []Input{a, b, c}
+	out := []Input{a, b, c}
+	for k := range out {
+		out[k].Stores, out[k].StoreImpl, out[k].Ctor, out[k].RevSupply = []string{}, "fake", "NewVerifierWithOptions", "validator"
+	}
+	// concretisation grid, always run: every level x unloadable store at each position x store implementation,
+	// and every constructor x every revocation supply x verdict
+	plain := Input{Override: [][2]string{}, PluginAttr: "absent", MinVerAttr: "absent", ExtAttrs: []ExtAttr{}, PluginState: "installed",
+		PluginVersion: "ok", Trust: "found", IdentityMatch: true, TimestampOk: true, Revocation: "ok", Processed: []string{},
+		VerdictIdentity: "success", VerdictRevocation: "success", Stores: []string{}, StoreImpl: "fake", Ctor: "NewVerifierWithOptions", RevSupply: "validator"}
+	for _, lv := range []string{"strict", "permissive", "audit"} {
+		for _, impl := range []string{"fake", "fs"} {
+			for _, st := range [][]string{{"broken", "anchor"}, {"anchor", "broken"}, {"anchor", "broken", "anchor"}, {"other", "broken", "other", "anchor"},
+				{"broken", "broken", "anchor"}, {"broken", "anchor", "anchor"}, {"otherTypeBroken", "anchor"}, {"anchor", "otherTypeBroken"},
+				{"other", "anchor"}, {"anchor", "other", "dup"}, {"otherType", "other"}, {"dup", "broken", "anchor"}} {
+				x := plain
+				x.Level, x.StoreImpl, x.Stores, x.Trust = lv, impl, st, trustOf(st)
+				out = append(out, x)
+				if impl == "fs" {
+					x.Ctor, x.RevSupply = "NewFromConfig", "none"
+					out = append(out, x)
+				}
+			}
+		}
+		for _, ctor := range []string{"New", "NewWithOptions", "NewVerifierWithOptions", "NewFromConfig", "NewOCIVerifierFromConfig"} {
+			for _, sup := range []string{"validator", "client", "both", "none"} {
+				for _, rv := range []string{"ok", "revoked", "unknown", "validatorError"} {
+					for _, ov := range [][][2]string{{}, {{"revocation", "enforce"}}, {{"revocation", "log"}}, {{"revocation", "skip"}}} {
+						x := plain
+						x.Level, x.Ctor, x.RevSupply, x.Revocation, x.Override = lv, ctor, sup, rv, ov
+						if ctor == "NewFromConfig" || ctor == "NewOCIVerifierFromConfig" {
+							x.StoreImpl = "fs"
+						}
+						if wellFormed(x) == nil {
+							out = append(out, x)
+						}
+					}
+				}
+			}
+		}
+	}
+	return out
 }
 
 // Run: corpus, then a stratified random sample of the scenario product.
 func Run(c *common.Ctx) error {
-	w := newWorld()
+	w := newWorld(c.WorkDir)
 	n := 12000
 	if c.Thorough() {
 		n = 150000
@@ -438,6 +862,9 @@ func Run(c *common.Ctx) error {
 			c.Count("plugin-executed")
 		}
 		c.Count(fmt.Sprintf("results=%d", len(o.Results)))
+		c.Count("ctor=" + in.Ctor + "/revSupply=" + in.RevSupply)
+		c.Count(fmt.Sprintf("storeImpl=%s/stores=%d", in.StoreImpl, len(in.Stores)))
+		c.Count("unloadable-store=" + brokenPosition(in.Stores))
 	}
 	for _, in := range corpus() {
 		emit(in)
@@ -445,7 +872,7 @@ func Run(c *common.Ctx) error {
 	for k := 0; k < n; k++ {
 		emit(genInput(c))
 	}
-	c.Note("stratified random scenarios of processSignature (level x legal override x plugin attribute/state/version/capabilities x trust x identity x expiry x timestamp x revocation x verdicts x extended attributes); signatures are real JWS/COSE envelopes verified by the real verifier.Verify with instrumented trust store, revocation validator and plugin manager")
+	c.Note("stratified random scenarios of processSignature (level x legal override x plugin attribute/state/version/capabilities x trust x identity x expiry x timestamp x revocation x verdicts x extended attributes); signatures are real JWS/COSE envelopes verified by the real verifier.Verify with instrumented trust store, revocation validator and plugin manager; each scenario is concretised along: the statement's trust store list (1-7 entries: anchor / unrelated / empty / unloadable / duplicate / other signing type, unloadable one before, between, after good ones) x trust store implementation (in-memory fake, real file-system store with missing directory / symlink / junk file) x public constructor (New, NewWithOptions, NewVerifierWithOptions, NewFromConfig, NewOCIVerifierFromConfig over a provisioned configuration directory) x revocation supply (RevocationCodeSigningValidator, deprecated RevocationClient, both with a contradicting client, none = default validator); a fixed grid of these runs first")
 	return nil
 }
 
